@@ -30,6 +30,8 @@ pub enum Fault {
     TwoSoa,
     /// a symbolic link to nowhere in the zone directory / in the hosts directory
     DanglingLink(bool),
+    /// the zone and the hosts directory are renamed away
+    DirsGone,
 }
 
 #[derive(Debug, Clone, PartialEq, Eq, Hash, Serialize, Deserialize)]
@@ -46,11 +48,25 @@ pub struct Step {
     /// must be answered from the old configuration
     #[serde(default)]
     pub slow: bool,
+    /// (slow-upstream histories) a question about a non-local name is put
+    /// just before the signal, so that the reload coincides with a resolution
+    /// that is waiting for its forwarder
+    #[serde(default)]
+    pub inflight: bool,
 }
 
 #[derive(Debug, Clone, PartialEq, Eq, Hash, Serialize, Deserialize)]
 pub struct History {
     pub steps: Vec<Step>,
+    /// the server is configured with directories only (-Z, -A): what would be
+    /// the explicit zone and hosts files live in those directories
+    #[serde(default)]
+    pub dirs_only: bool,
+    /// the server runs in forwarding mode towards a forwarder that never
+    /// answers (a bound socket nobody reads): questions about names that are
+    /// not local stay in flight for seconds
+    #[serde(default)]
+    pub slow_upstream: bool,
 }
 
 struct Layout {
@@ -68,6 +84,13 @@ fn soa(zone: &str, ver: usize) -> String {
 /// Write the complete configuration of version `ver`.
 fn write_config(l: &Layout, ver: usize, s: &Step) -> std::io::Result<()> {
     // undo whatever a previous fault left behind
+    for d in [&l.zdir, &l.hdir] {
+        let gone = PathBuf::from(format!("{}.gone", d.display()));
+        if gone.exists() {
+            std::fs::remove_dir_all(&gone)?;
+        }
+        std::fs::create_dir_all(d)?;
+    }
     if l.zfile.is_dir() {
         std::fs::remove_dir_all(&l.zfile)?;
     }
@@ -131,6 +154,11 @@ fn write_config(l: &Layout, ver: usize, s: &Step) -> std::io::Result<()> {
         std::fs::write(he, format!("10.1.{ver}.1 more.lan\n"))?;
     } else {
         let _ = std::fs::remove_file(he);
+    }
+    if s.fault == Some(Fault::DirsGone) {
+        for d in [&l.zdir, &l.hdir] {
+            std::fs::rename(d, PathBuf::from(format!("{}.gone", d.display())))?;
+        }
     }
     Ok(())
 }
@@ -216,36 +244,61 @@ impl Prop for Reloads {
                 extras: [g.bool(), g.bool(), g.chance(1, 3)],
                 hosts_extra: g.bool(),
                 fault: if g.chance(2, 5) {
-                    Some(g.pick(&[Fault::ZoneSyntax(true), Fault::ZoneSyntax(false), Fault::NotUtf8, Fault::FileIsDirectory, Fault::FileMissing, Fault::BadHosts, Fault::TwoSoa, Fault::DanglingLink(true), Fault::DanglingLink(false)]))
+                    Some(g.pick(&[Fault::ZoneSyntax(true), Fault::ZoneSyntax(false), Fault::NotUtf8, Fault::FileIsDirectory, Fault::FileMissing, Fault::BadHosts, Fault::TwoSoa, Fault::DanglingLink(true), Fault::DanglingLink(false), Fault::DirsGone]))
                 } else {
                     None
                 },
                 pad: g.pick(&[0u16, 200, 2000, 6000]),
                 slow: g.chance(1, 4),
+                inflight: g.chance(1, 2),
             })
             .collect();
-        History { steps }
+        History { steps, dirs_only: g.chance(1, 4), slow_upstream: g.chance(1, 4) }
     }
 
     fn check(&self, h: &History) -> Outcome {
         let dir = scratch("c19");
-        let l = Layout { zfile: dir.join("main.zone"), zdir: dir.join("zones.d"), hfile: dir.join("hosts"), hdir: dir.join("hosts.d"), dir: dir.clone() };
+        let l = if h.dirs_only {
+            Layout { zfile: dir.join("zones.d").join("00-main.zone"), zdir: dir.join("zones.d"), hfile: dir.join("hosts.d").join("00-main.hosts"), hdir: dir.join("hosts.d"), dir: dir.clone() }
+        } else {
+            Layout { zfile: dir.join("main.zone"), zdir: dir.join("zones.d"), hfile: dir.join("hosts"), hdir: dir.join("hosts.d"), dir: dir.clone() }
+        };
         let mut out = Outcome::pass(false).count("steps", h.steps.len() as u64);
         if std::fs::create_dir_all(&l.zdir).is_err() || std::fs::create_dir_all(&l.hdir).is_err() {
             return out.fail("harness-io", "cannot create the scratch configuration");
         }
         // version 0: a valid start configuration
-        let start = Step { extras: [true, false, false], hosts_extra: false, fault: None, pad: 0, slow: false };
+        let start = Step { extras: [true, false, false], hosts_extra: false, fault: None, pad: 0, slow: false, inflight: false };
         if let Err(e) = write_config(&l, 0, &start) {
             return out.fail("harness-io", e.to_string());
         }
-        let args: Vec<String> = vec![
-            "--authoritative-only".into(),
-            "-z".into(), l.zfile.display().to_string(),
-            "-Z".into(), l.zdir.display().to_string(),
-            "-a".into(), l.hfile.display().to_string(),
-            "-A".into(), l.hdir.display().to_string(),
-        ];
+        let args: Vec<String> = if h.dirs_only {
+            vec!["--authoritative-only".into(), "-Z".into(), l.zdir.display().to_string(), "-A".into(), l.hdir.display().to_string()]
+        } else {
+            vec![
+                "--authoritative-only".into(),
+                "-z".into(), l.zfile.display().to_string(),
+                "-Z".into(), l.zdir.display().to_string(),
+                "-a".into(), l.hfile.display().to_string(),
+                "-A".into(), l.hdir.display().to_string(),
+            ]
+        };
+        if h.dirs_only {
+            out.classes.push("directories-only".into());
+        }
+        // the forwarder that never answers: a bound UDP socket nobody reads
+        // (TCP to its port is refused at once), kept for the server's lifetime
+        let black_hole = std::net::UdpSocket::bind("127.0.0.1:0").ok();
+        let mut args = args;
+        if h.slow_upstream {
+            let Some(port) = black_hole.as_ref().and_then(|s| s.local_addr().ok()).map(|a| a.port()) else {
+                return out.fail("harness-io", "cannot bind the black-hole forwarder");
+            };
+            args.retain(|a| a != "--authoritative-only");
+            args.push("--forward-address".into());
+            args.push(format!("127.0.0.1:{port}"));
+            out.classes.push("forwarding-to-silent-forwarder".into());
+        }
         let mut server = match Server::start(l.dir.clone(), &args, &query("m1.v.test.", T_TXT, 0x5e5e)) {
             Ok(s) => s,
             Err(e) => return out.class("server-not-started").class(e),
@@ -255,9 +308,20 @@ impl Prop for Reloads {
         let mut good_step = start.clone();
         let (mut n_fail, mut n_ok, mut during_total) = (0u32, 0u32, 0u64);
         let mut slow_probes = 0u64;
+        let mut inflight_steps = 0u64;
 
         for (i, s) in h.steps.iter().enumerate() {
             let ver = i + 1;
+            // with directories only, a missing main file is no error (and a
+            // directory in a directory is skipped): those two faults become
+            // "both directories gone"
+            let adjusted;
+            let s = if h.dirs_only && matches!(s.fault, Some(Fault::FileMissing) | Some(Fault::FileIsDirectory)) {
+                adjusted = Step { fault: Some(Fault::DirsGone), ..s.clone() };
+                &adjusted
+            } else {
+                s
+            };
             let valid = s.fault.is_none();
             if let Err(e) = write_config(&l, ver, s) {
                 return out.fail("harness-io", e.to_string());
@@ -265,21 +329,22 @@ impl Prop for Reloads {
             let (before, _) = count_done(&server.log_text());
             // probes in a tight loop around the signal
             let stop = Arc::new(AtomicBool::new(false));
-            let seen: Arc<Mutex<Vec<(Instant, Option<Vec<u8>>, usize)>>> = Default::default();
+            let seen: Arc<Mutex<Vec<(Instant, Option<Vec<u8>>, usize, u64)>>> = Default::default();
             let (stop2, seen2) = (stop.clone(), seen.clone());
             let prober = std::thread::spawn(move || {
                 let mut k = 0usize;
                 while !stop2.load(Ordering::Relaxed) {
                     let (name, t) = PROBES[k % PROBES.len()];
-                    let r = udp_exchange(addr, &query(name, t, 0x3000 + (k as u16 % 1000)), Duration::from_secs(5)).ok().flatten();
-                    seen2.lock().unwrap().push((Instant::now(), r, k % PROBES.len()));
+                    let t0 = Instant::now();
+                    let r = udp_exchange(addr, &query(name, t, 0x3000 + (k as u16 % 1000)), Duration::from_secs(8)).ok().flatten();
+                    seen2.lock().unwrap().push((Instant::now(), r, k % PROBES.len(), t0.elapsed().as_millis() as u64));
                     k += 1;
                 }
             });
             std::thread::sleep(Duration::from_millis(3));
             let fifo = l.hdir.join("50-slow.hosts");
             let _ = std::fs::remove_file(&fifo);
-            if s.slow {
+            if s.slow && s.fault != Some(Fault::DirsGone) {
                 let c = std::ffi::CString::new(fifo.display().to_string()).unwrap();
                 if unsafe { libc::mkfifo(c.as_ptr(), 0o644) } != 0 {
                     stop.store(true, Ordering::Relaxed);
@@ -287,11 +352,22 @@ impl Prop for Reloads {
                     return out.fail("harness-io", "mkfifo failed");
                 }
             }
+            let mut inflight_socket = None;
+            if h.slow_upstream && s.inflight {
+                if let Ok(sock) = std::net::UdpSocket::bind("127.0.0.1:0") {
+                    let mut m = rwire::decode(&query("slow.nonlocal.invalid.", T_A, 0x6000 + ver as u16)).expect("own query");
+                    m.rd = true;
+                    let _ = sock.send_to(&rwire::encode_plain(&m), addr);
+                    inflight_socket = Some(sock);
+                    inflight_steps += 1;
+                    std::thread::sleep(Duration::from_millis(40));
+                }
+            }
             let t_signal = Instant::now();
             server.signal(libc::SIGUSR1);
             // (failures of the slow phase are reported after the prober thread has been stopped)
             let mut slow_failure: Option<(&'static str, String)> = None;
-            if s.slow {
+            if s.slow && s.fault != Some(Fault::DirsGone) {
                 // the load is stuck on the FIFO (or has not reached it yet):
                 // the server must keep answering, from the old configuration
                 std::thread::sleep(Duration::from_millis(30));
@@ -390,7 +466,13 @@ impl Prop for Reloads {
                 n_fail += 1;
             }
             // replies seen around the reload: internally consistent, old or new good version
-            for (t, r, pk) in seen.lock().unwrap().iter() {
+            drop(inflight_socket);
+            for (t, r, pk, latency_ms) in seen.lock().unwrap().iter() {
+                // "keeps answering throughout": local names are answered from
+                // memory; seconds of delay mean the query was held up
+                if *latency_ms > 2_000 {
+                    return out.fail("probe-stalled", format!("probe {:?} around reload {ver} was answered after {latency_ms} ms{}", PROBES[*pk], if h.slow_upstream && s.inflight { " (a question for the silent forwarder was in flight)" } else { "" }));
+                }
                 let Some(r) = r else {
                     return out.fail("probe-unanswered", format!("probe {:?} got no reply around reload {ver}", PROBES[*pk]));
                 };
@@ -453,6 +535,7 @@ impl Prop for Reloads {
         out.counts.push(("reloads-failing", u64::from(n_fail)));
         out.counts.push(("replies-during-reload-window", during_total));
         out.counts.push(("probes-answered-while-load-blocked", slow_probes));
+        out.counts.push(("reloads-with-an-upstream-question-in-flight", inflight_steps));
         if slow_probes > 0 {
             out.classes.push("slow-reload".into());
         }
@@ -469,7 +552,7 @@ pub fn def() -> PropertyDef {
     PropertyDef {
         id: "C19",
         level: "fault_enumeration",
-        rule: "One `resolved --authoritative-only` process per history (shipped binary, guard off, RUST_LOG=info) configured with an explicit zone file (-z), a zone directory (-Z: one zone with 0..6000 padding records so that loading takes milliseconds, plus up to three optional zone files), a hosts file (-a) and a hosts directory (-A). A history has 3..10 steps; step v rewrites every file so that each record carries the version v in its data (TXT text, address octet, SOA serial, CNAME TTL), adds or removes the optional files, and with probability 2/5 plants one fault (syntax error in the explicit or in a directory zone file, a non-UTF-8 file, the explicit file replaced by a directory or removed, a malformed hosts line, a second SOA, a dangling symbolic link in the zone or the hosts directory), then sends SIGUSR1 and waits for the 'done - success|failure' log line while a thread fires probes in a tight loop (several A records, TXT, ANY, an alias crossing two files, a hosts entry); one step in four is a slow reload: a writer-less FIFO in the hosts directory blocks the load, six probes sent meanwhile must each be answered within 3 s from the configuration in force, then the FIFO is fed. Oracle: the log says success iff the step planted no fault; every reply around the reload has markers that all agree and name the previous or the new good version; after the reload every probe shows exactly the good version (the new one after success, the previous good one after failure), optional records are present iff their file belongs to that configuration; every probe is answered and the process stays alive. Non-trivial = the history has a succeeding and a failing reload and at least one reply fell between signal and log line. Distinct by hash of the history.",
+        rule: "One `resolved --authoritative-only` process per history (shipped binary, guard off, RUST_LOG=info) configured with an explicit zone file (-z), a zone directory (-Z; one history in four uses directories only, the main zone and hosts files living inside them; one history in four runs the server in forwarding mode towards a forwarder that never answers and puts, in half of its steps, a question about a non-local name just before the signal, so that the reload coincides with a resolution waiting for its upstream; every probe must be answered within 2 s: one zone with 0..6000 padding records so that loading takes milliseconds, plus up to three optional zone files), a hosts file (-a) and a hosts directory (-A). A history has 3..10 steps; step v rewrites every file so that each record carries the version v in its data (TXT text, address octet, SOA serial, CNAME TTL), adds or removes the optional files, and with probability 2/5 plants one fault (syntax error in the explicit or in a directory zone file, a non-UTF-8 file, the explicit file replaced by a directory or removed, a malformed hosts line, a second SOA, a dangling symbolic link in the zone or the hosts directory, both directories renamed away), then sends SIGUSR1 and waits for the 'done - success|failure' log line while a thread fires probes in a tight loop (several A records, TXT, ANY, an alias crossing two files, a hosts entry); one step in four is a slow reload: a writer-less FIFO in the hosts directory blocks the load, six probes sent meanwhile must each be answered within 3 s from the configuration in force, then the FIFO is fed. Oracle: the log says success iff the step planted no fault; every reply around the reload has markers that all agree and name the previous or the new good version; after the reload every probe shows exactly the good version (the new one after success, the previous good one after failure), optional records are present iff their file belongs to that configuration; every probe is answered and the process stays alive. Non-trivial = the history has a succeeding and a failing reload and at least one reply fell between signal and log line. Distinct by hash of the history.",
         assumptions: vec!["timing of probes relative to the swap is the operating system's (not controlled); the count of replies inside the reload window is reported"],
         parts: vec![Box::new(Reloads)],
         budget_s: |t| t.pick(1200, 10_800),
